@@ -200,19 +200,35 @@ Example C13_nonvacuous :
 Proof. exact C13_nonvacuous_witness2. Qed.
 
 From Coq Require Import Floats.
-(* REFUTED in binary64 (genuine defect of the implementation, known_findings/C13.json): the same model run on
-   floats does NOT give J = 0 everywhere in the bore.  The witness is the row BHJM_cylinder_segment_internal
-   receives for CylinderSegment(dimension=(0.8205, 1.222, 1.86, 0, 360), polarization=(0,0,1),
-   position=(0,0,-0.1635)) at the observer (0.2216.., 0.3452.., -0.1635-0.93): full angle, in the bore, one ulp
-   below the plane of the bottom face - and the shortcut returns J = (0, 0, -1). *)
-Theorem C13_full_segment_J_binary64_refuted :
-  GenCylMask.cyl_bases_before_scaling = false ->   (* TRANSLATED: the test |z| <= z0 stands after the scaling *)
+(* ---- binary64, the between-the-bases decision of the full-angle shortcut.
+   Positive, for EVERY numeric carrier (binary64 included) and the placement of the test the code has now (before the
+   scaling, /repo b977b89; the flag GenCylMask.cyl_bases_before_scaling is translated on every run and cyl_JM_row
+   follows it): a point that is not between the bases gets J = 0 - 0 from the shortcut - the decision depends on z and
+   h only, so the outer and the inner cylinder cannot disagree. *)
+Theorem C13_full_segment_J_outside_bases_any_carrier :
+  forall (N : NumOps) (mu0 : num N) (o p : @vec N) (r1 r2 h phi1 phi2 : num N),
+    let '(ox, oy, oz) := o in
+    nleb N (nabs N oz) (ndiv N h (nofZ N 2)) = false ->
+    @full_cylinder_spec N (@cyl_JM_row_gen N true mu0) FJ (o, p, (r1, r2, h, phi1, phi2)) =
+    if neqb N r1 (nofZ N 0) then vzero3 else vsub3 vzero3 vzero3.
+Proof. exact full_segment_J_outside_bases. Qed.
+Print Assumptions C13_full_segment_J_outside_bases_any_carrier.
+
+(* the row of the former defect (CylinderSegment(dimension=(0.8205, 1.222, 1.86, 0, 360), polarization=(0,0,1),
+   position=(0,0,-0.1635)) at the observer (0.2216.., 0.3452.., -0.1635-0.93): full angle, in the bore, one ulp below
+   the plane of the bottom face) now gives J = 0 on binary64 *)
+Theorem C13_full_segment_J_binary64_witness_repaired :
+  @full_cylinder_spec FNum (@cyl_JM_row_gen FNum true mu0_f) FJ bore_witness = (0, 0, 0)%float.
+Proof. exact bore_witness_current_variant. Qed.
+
+(* OLD-VARIANT RECORD (defect fixed by b977b89; known_findings/C13.json status fixed): with the test AFTER the
+   scaling the same model run on floats returned J = (0, 0, -1) in the empty bore *)
+Theorem C13_full_segment_J_binary64_old_variant_refuted :
   @mask_segment FNum bore_witness = false /\
   (let '((ox, oy, oz), _, (r1, _, h, _, _)) := bore_witness in
    PrimFloat.ltb (PrimFloat.sqrt (ox * ox + oy * oy)) r1 = true /\
    PrimFloat.ltb (h / 2) (PrimFloat.abs oz) = true)%float /\
-  @full_cylinder_spec FNum (@cyl_JM_row FNum mu0_f) FJ bore_witness = (0, 0, -1)%float.
-Proof. exact bore_witness_refutes. Qed.
-(* no Print Assumptions here: it lists the kernel's primitive float / int63 operations (PrimFloat.mul, ...), which are
-   not axioms of the development; the statement is closed by vm_compute on Coq's primitive binary64 floats *)
-
+  @full_cylinder_spec FNum (@cyl_JM_row_gen FNum false mu0_f) FJ bore_witness = (0, 0, -1)%float.
+Proof. exact bore_witness_old_variant. Qed.
+(* no Print Assumptions for the two binary64 statements: it lists the kernel's primitive float / int63 operations
+   (PrimFloat.mul, ...), which are not axioms of the development; they are closed by vm_compute *)
